@@ -220,6 +220,12 @@ def gen_cases(rec, rng, tier):
         # the same rule list with another start variable, evaluated in the same interpreter
         for tw in cfgg.start_twins(RG)[:2]:
             yield {'cls': 'same_rules_other_start_variable', 'ref': tw, 'n': 4}
+    for _ in range(200 if thorough else 25):
+        RG = cfgg.cnf_shape_with_inner_epsilon(rng)
+        yield {'cls': 'cnf_shape_with_inner_epsilon', 'ref': RG, 'n': 4}
+        yield {'cls': 'composite_start_name', 'ref': cfgg.composite_start_name(rng, RG), 'n': 4}
+        RG = cfgg.random_cnf(rng, rng.randint(2, 5), rng.randint(1, 6), nt=rng.randint(1, 2))
+        yield {'cls': 'composite_start_name', 'ref': cfgg.composite_start_name(rng, RG), 'n': 4}
     for _ in range(120 if thorough else 8):
         yield {'cls': 'unit_cycles', 'ref': cfgg.unit_cycle_grammar(rng), 'n': 3, 'via_chomsky': True}
         yield {'cls': 'redundant_cnf', 'ref': cfgg.redundant_cnf(rng), 'n': 5}
